@@ -969,3 +969,114 @@ theorem reads_append (r : Rd) (s : Src) (cx : Ctx) (ks1 ks2 : List Nat) (o1 : By
           | some x => simp [← h1, List.append_assoc]
 
 end Ws.RdProof
+
+namespace Ws.RdProof
+open Ws Ws.Spec
+
+/-! ### a transport that ends inside the current frame (C16) -/
+
+/-- the reader is inside a frame of which the transport holds fewer bytes than are outstanding -/
+structure CutFrame (r : Rd) (s : Src) : Prop where
+  has : r.hasFrame = true
+  noU : r.utf8on = false
+  short : s.bytes.length < r.rawN
+  wf : Bytes.WF s.bytes
+  mwf : r.mask.WF
+
+/-- **One Read of a cut frame**: it hands out genuine (unmasked) bytes of the frame with no error
+    while the transport has some, and otherwise reports io.ErrUnexpectedEOF or the transport's own
+    failure — never io.EOF, never success for the frame. -/
+theorem read_cut (r : Rd) (s : Src) (cx : Ctx) (cb : Option Callback) (k : Nat) (h : CutFrame r s) (hk : 0 < k) :
+    ∃ got e s1, r.read s cx k cb = some (plainOf r got, got.length, e, adv r got.length, s1, cx)
+      ∧ got ++ s1.bytes = s.bytes ∧ s1.fin = s.fin
+      ∧ ((e = none ∧ mu s1 < mu s ∧ CutFrame (adv r got.length) s1)
+         ∨ (e = some .ueof ∧ s.fin = .eof) ∨ (e = some .fail ∧ s.fin = .fail)) := by
+  have hrn : r.rawN ≠ 0 := by have := h.short; omega
+  have hsplit := C02.src_read_split s (min k r.rawN)
+  have hlen := src_read_len s (min k r.rawN)
+  have hwf := C02.src_read_wf s (min k r.rawN) h.wf
+  have hfin := src_read_fin s (min k r.rawN)
+  unfold Rd.read
+  simp only [h.has, Bool.not_true, Bool.false_eq_true, if_false]
+  unfold Rd.frameRead Rd.rawRead
+  simp only [hrn, if_false]
+  rcases hr : s.read (min k r.rawN) with ⟨got, e, s1⟩
+  rw [hr] at hsplit hlen hwf hfin
+  simp only at hsplit hlen hwf hfin ⊢
+  have hgl : got.length ≤ s.bytes.length := by rw [← hsplit]; simp
+  have hleft : r.rawN - got.length > 0 := by have := h.short; omega
+  have hcipher : (if r.masked then cipher got r.mask r.cpos else some got) = some (plainOf r got) := by
+    unfold plainOf
+    cases r.masked
+    · simp
+    · simp [C02.cipher_eq_spec got hwf.1 r.mask h.mwf r.cpos]
+  simp only [hcipher, h.noU, Bool.false_eq_true, if_false, plainOf_length]
+  have hadv : (if r.masked = true then
+        ({ r with rawN := r.rawN - got.length, cpos := r.cpos + got.length } : Rd)
+      else { r with rawN := r.rawN - got.length }) = adv r got.length := by
+    unfold adv; cases hm : r.masked <;> simp
+  refine ⟨got, ?_, s1, ?_, hsplit, hfin.1, ?_⟩
+  · exact (match e with
+      | none => none
+      | some Fin.fail => some RErr.fail
+      | some Fin.eof => some RErr.ueof)
+  · cases e with
+    | none =>
+      have hne : (adv r got.length).rawN ≠ 0 := by simp [adv]; omega
+      cases hm : r.masked <;> simp [hm, adv, h.noU] <;> omega
+    | some f =>
+      cases f with
+      | eof => cases hm : r.masked <;> simp [hm, adv, hleft, h.noU]
+      | fail => cases hm : r.masked <;> simp [hm, adv, h.noU]
+  · cases e with
+    | none =>
+      left
+      have hne : s.chunks ≠ [] := by
+        intro hc
+        have : (s.read (min k r.rawN)).2.1 = some s.fin := by unfold Src.read; simp [hc]
+        rw [hr] at this; simp at this
+      have hmu := src_read_mu s (min k r.rawN) (by omega) hne
+      rw [hr] at hmu
+      refine ⟨rfl, hmu, ⟨by simp [adv, h.has], by simp [adv, h.noU], ?_, hwf.2, by simp [adv]; exact h.mwf⟩⟩
+      have : s1.bytes.length = s.bytes.length - got.length := by
+        rw [← hsplit]; simp
+      have hs := h.short
+      simp only [adv]; omega
+    | some f =>
+      have he : (s.read (min k r.rawN)).2.1 = some f := by rw [hr]
+      have := (src_read_err s (min k r.rawN) f he).2
+      cases f with
+      | eof => right; left; exact ⟨rfl, this.symm⟩
+      | fail => right; right; exact ⟨rfl, this.symm⟩
+
+/-- **Any sequence of Reads of a cut frame**: everything handed out is a genuine prefix of what the
+    transport held, the only errors possible are io.ErrUnexpectedEOF / the transport failure, and
+    one of them is reported after at most (bytes + chunks + 1) Reads. -/
+theorem reads_cut (ks : List Nat) (hpos : ∀ k ∈ ks, 0 < k) (r : Rd) (s : Src) (cx : Ctx) (h : CutFrame r s) :
+    ∃ raw out e r' s', reads r s cx ks = some (out, e, r', s', cx) ∧ out = plainOf r raw ∧ raw ++ s'.bytes = s.bytes
+      ∧ ((e = none ∧ mu s' + ks.length ≤ mu s) ∨ (e = some .ueof ∧ s.fin = .eof) ∨ (e = some .fail ∧ s.fin = .fail)) := by
+  induction ks generalizing r s with
+  | nil => exact ⟨[], [], none, r, s, rfl, by simp [plainOf, xorSpec], by simp, Or.inl ⟨rfl, by simp⟩⟩
+  | cons k ks ih =>
+    obtain ⟨got, e, s1, hrd, hsplit, hfin1, hcase⟩ := read_cut r s cx none k h (hpos k (by simp))
+    simp only [reads, hrd]
+    have hlen : (plainOf r got).length = got.length := plainOf_length r got
+    rcases hcase with ⟨he, hmu, hcut⟩ | ⟨he, hf⟩ | ⟨he, hf⟩
+    · subst he
+      obtain ⟨raw2, o2, e2, r2, s2, hrd2, ho2, hsp2, hc2⟩ := ih (fun k' hk' => hpos k' (by simp [hk'])) (adv r got.length) s1 hcut
+      simp only [hrd2]
+      refine ⟨got ++ raw2, plainOf r got ++ o2, e2, r2, s2, by rw [List.take_of_length_le (by rw [hlen]; exact Nat.le_refl _)], ?_, ?_, ?_⟩
+      · rw [ho2]
+        have := plainOf_split r (got ++ raw2) got.length (by simp)
+        simpa using this
+      · rw [List.append_assoc, hsp2, hsplit]
+      · rcases hc2 with ⟨h1, h2⟩ | ⟨h1, h2⟩ | ⟨h1, h2⟩
+        · exact Or.inl ⟨h1, by simp only [List.length_cons]; omega⟩
+        · exact Or.inr (Or.inl ⟨h1, by rw [← hfin1]; exact h2⟩)
+        · exact Or.inr (Or.inr ⟨h1, by rw [← hfin1]; exact h2⟩)
+    · subst he
+      exact ⟨got, plainOf r got, some .ueof, adv r got.length, s1, by rw [List.take_of_length_le (by rw [hlen]; exact Nat.le_refl _)], rfl, hsplit, Or.inr (Or.inl ⟨rfl, hf⟩)⟩
+    · subst he
+      exact ⟨got, plainOf r got, some .fail, adv r got.length, s1, by rw [List.take_of_length_le (by rw [hlen]; exact Nat.le_refl _)], rfl, hsplit, Or.inr (Or.inr ⟨rfl, hf⟩)⟩
+
+end Ws.RdProof
